@@ -8,8 +8,10 @@
    of declarations, fields, fall-through groups, labels), walking the token tree pest builds for
    it yields exactly the items ds declares (C12_walk), and every type / constant / enum member
    is retrievable by name with exactly that content, generics = opaque reachability (C12_ast).
-   PARTIAL: the text-level step  parse (print ds) = tree_of ds  (the PEG interpreter run on
-   every layout) is checked by K1 per spec, not proved.
+   Proved at text level (TextProofs, TextTie; second half of this file): every text that reads
+   as ds -- any layout, comments included -- is accepted whole by the PEG of the regenerated
+   grammar, its tree erases to tree_of ds, and its Ast is the Ast of the declared items.  What
+   stays sampled: that pest and the real walker behave like Peg.v and Walk.v (K1, K5).
    Finding F3: the bound of a typedef'd variable-length opaque is dropped (C05_refuted_F3). *)
 From XdrModel Require Import Walk Source.
 From XdrProofs Require Import IndexProofs WalkProofs.
